@@ -765,3 +765,14 @@ func (w *floodWalker) walk(s *Schema, depth int) bool {
 		return err == nil
 	}
 }
+
+// HasLargeVarint reports whether some offset of b starts a well-formed varint whose absolute value exceeds limit.
+func HasLargeVarint(b []byte, limit int64) bool {
+	for i := range b {
+		v, _, cl := ReadLong(b[i:])
+		if cl == VOK && (v > limit || v < -limit) {
+			return true
+		}
+	}
+	return false
+}
